@@ -281,3 +281,117 @@ theorem trapMain_run (cmdOf : String → Nat) (st : State) (o : Nat) (i p : Bool
     split <;> exact hx
 
 end YashModel.Trap
+
+namespace YashModel.Trap
+
+/-! ### one `trap ACTION COND…` command sets every listed condition -/
+
+/-- the state `set_action` writes -/
+def newState (a : Action) (o : Nat) : TrapState := { action := a, origin := .user o, pending := false }
+
+theorem setAction_ok_of_not_refused (st : State) (c : Nat) (a : Action) (o : Nat) (ov : Bool)
+    (hk : c ≠ SIGKILL) (hs : c ≠ SIGSTOP) (hr : refused st c ov = false) :
+    (setAction st c a o ov).2 = none := by
+  unfold setAction
+  simp only [hk, hs, if_false]
+  unfold GrandState.setAction
+  unfold refused at hr
+  rw [get_clearParents]
+  cases hg : get st.traps c with
+  | none =>
+    rw [hg] at hr
+    simp only [Option.map_none]
+    by_cases h0 : c = 0
+    · simp [h0]
+    · simp only [h0, ne_eq, not_false_eq_true, if_true, setDisposition_fst]
+      cases ov <;> simp_all
+  | some g =>
+    rw [hg] at hr
+    simp only [Option.map_some, GrandState.clearParent]
+    cases ov with
+    | true => simp
+    | false =>
+      have hne : ¬ (g.current.action = Action.ignore ∧ g.current.origin = Origin.inherited) := by
+        intro h; simp [h.1, h.2] at hr
+      simp [hne]
+
+theorem setAction_get_other (st : State) (c c' : Nat) (a : Action) (o : Nat) (ov : Bool) (h : c ≠ c') :
+    get (setAction st c' a o ov).1.traps c = (get st.traps c).map GrandState.clearParent
+    ∨ get (setAction st c' a o ov).1.traps c = get st.traps c := by
+  unfold setAction
+  split
+  · right; rfl
+  · split
+    · right; rfl
+    · left; simp only [get_set, h, if_false, get_clearParents]
+
+theorem setAction_disp_other (st : State) (c c' : Nat) (a : Action) (o : Nat) (ov : Bool) (h : c ≠ c') :
+    (setAction st c' a o ov).1.sys.disp c = st.sys.disp c := by
+  unfold setAction
+  split
+  · rfl
+  · split
+    · rfl
+    · exact setActionE_other _ _ _ _ _ _ _ h
+
+theorem refused_setAction_other (st : State) (c c' : Nat) (a : Action) (o : Nat) (ov ov' : Bool)
+    (h : c ≠ c') : refused (setAction st c' a o ov).1 c ov' = refused st c ov' := by
+  unfold refused
+  rw [setAction_disp_other st c c' a o ov h]
+  rcases setAction_get_other st c c' a o ov h with hg | hg
+  · rw [hg]; cases get st.traps c <;> rfl
+  · rw [hg]
+
+/-- once a condition holds the new state, a further `set_action` of the same command keeps it -/
+theorem newState_preserved (st : State) (c c' : Nat) (a : Action) (o : Nat) (ov : Bool) (g : GrandState)
+    (hg : get st.traps c = some g) (hn : g.current = newState a o) :
+    ∃ g', get (setAction st c' a o ov).1.traps c = some g' ∧ g'.current = newState a o := by
+  by_cases h : c = c'
+  · subst h
+    by_cases hk : c = SIGKILL
+    · refine ⟨g, ?_, hn⟩
+      have : (setAction st c a o ov).1 = st := by unfold setAction; rw [if_pos hk]
+      rw [this, hg]
+    · by_cases hs : c = SIGSTOP
+      · refine ⟨g, ?_, hn⟩
+        have : (setAction st c a o ov).1 = st := by unfold setAction; rw [if_neg hk, if_pos hs]
+        rw [this, hg]
+      · have hr : refused st c ov = false := by
+          simp [refused, hg, hn, newState]
+        have hok := setAction_ok_of_not_refused st c a o ov hk hs hr
+        exact ⟨_, getState_setAction_ok st c a o ov hok, rfl⟩
+  · rcases setAction_get_other st c c' a o ov h with hg' | hg'
+    · exact ⟨g.clearParent, by rw [hg', hg]; rfl, hn⟩
+    · exact ⟨g, by rw [hg', hg], hn⟩
+
+theorem setActions_keeps_new (a : Action) (o : Nat) (ov : Bool) (cs : List Nat) (st : State) (c : Nat)
+    (g : GrandState) (hg : get st.traps c = some g) (hn : g.current = newState a o) :
+    ∃ g', get (setActions a o ov cs st).1.traps c = some g' ∧ g'.current = newState a o := by
+  induction cs generalizing st g with
+  | nil => exact ⟨g, hg, hn⟩
+  | cons c' cs ih =>
+    simp only [setActions]
+    obtain ⟨g1, hg1, hn1⟩ := newState_preserved st c c' a o ov g hg hn
+    exact ih _ g1 hg1 hn1
+
+/-- every listed condition that is not ignored on entry (and is not KILL/STOP) ends up with the
+    action of the command, whatever stands before or after it in the list -/
+theorem setActions_sets_each (a : Action) (o : Nat) (ov : Bool) (cs : List Nat) (st : State) (c : Nat)
+    (hm : c ∈ cs) (hk : c ≠ SIGKILL) (hs : c ≠ SIGSTOP) (hr : refused st c ov = false) :
+    ∃ g, get (setActions a o ov cs st).1.traps c = some g ∧ g.current = newState a o := by
+  induction cs generalizing st with
+  | nil => cases hm
+  | cons c' cs ih =>
+    simp only [setActions]
+    by_cases h : c = c'
+    · subst h
+      have hok := setAction_ok_of_not_refused st c a o ov hk hs hr
+      exact setActions_keeps_new a o ov cs _ c _ (getState_setAction_ok st c a o ov hok) rfl
+    · have hm' : c ∈ cs := by
+        rcases List.mem_cons.mp hm with h1 | h1
+        · exact absurd h1 h
+        · exact h1
+      apply ih _ hm'
+      rw [refused_setAction_other st c c' a o ov ov h]; exact hr
+
+end YashModel.Trap
